@@ -435,7 +435,6 @@ package workceptor
 // and is signed with the configured private key
 //@ func (*Workceptor).createSignature
 //@   tags C15
-//@   requires w != nil
 //@   site call LoadPrivateKey CONFIGUREDKEY: [C15] requires arg0 == w.SigningKey && w.SigningKey != ""
 //@   site call NewNumericDate EXPIRY: [C15] requires arg0 == exp
 //@   site call NewWithClaims CLAIMS: [C15] requires arg1 == box(claims) && len(claims.Audience) == 1 && claims.Audience[0] == nodeID && claims.ExpiresAt == lastcall("NewNumericDate", 0)
